@@ -55,9 +55,6 @@ def showNet (net : Net) : String :=
 /-! arguments of the history statements are small formulas evaluated on both sides
 (harness/c05.py: `formula_w`, `formula_v`, `formula_a`) -/
 
-def pow2 (k : Int) : Rat :=
-  if k ≥ 0 then ((2 ^ k.toNat : Nat) : Rat) else 1 / ((2 ^ (-k).toNat : Nat) : Rat)
-
 def loHi (directed : Bool) (i j : Nat) : Nat × Nat :=
   if directed then (i, j) else (min i j, max i j)
 
@@ -102,6 +99,8 @@ def applyOp (cosLat : List Rat) (_wtype : Nat) (r : Except Err Net) (op : String
   | none =>
   match op with
   | "ucopy" => undirectedCopy net
+  | "pcopy" =>        -- permuted_copy(identity): Network(adjacency=sp_A[idx][:, idx], node_weights=w[idx])
+      init net.directed (.sparse net.sparse) (some net.w)
   | "saveload_gml" => saveLoad gmlStore net
   | "loadspatial_gml" => loadViaAdjacency (gmlStore (toIGraph net)) none
   | "loadgeo_gml" => loadViaAdjacency (gmlStore (toIGraph net)) (some (geoWeights cosLat 1))
